@@ -222,6 +222,9 @@ func init() {
 		"math.Float64bits":            func(m *Machine, c *frame, a []value) value { return a[0] },
 		"math.Float32frombits":        func(m *Machine, c *frame, a []value) value { return a[0] },
 		"math.Float32bits":            func(m *Machine, c *frame, a []value) value { return a[0] },
+		"math.archTrunc":              floatFn(math.Trunc), "math.archFloor": floatFn(math.Floor), "math.archCeil": floatFn(math.Ceil), "math.archSqrt": floatFn(math.Sqrt),
+		"math.sqrt": floatFn(math.Sqrt), "math.archLog": floatFn(math.Log), "math.archExp": floatFn(math.Exp), "math.Trunc": floatFn(math.Trunc), "math.Floor": floatFn(math.Floor), "math.Ceil": floatFn(math.Ceil),
+		"math.Sqrt": floatFn(math.Sqrt), "math.Log": floatFn(math.Log), "math.Exp": floatFn(math.Exp), "math.Log2": floatFn(math.Log2), "math.Log10": floatFn(math.Log10),
 		"math.Abs": func(m *Machine, c *frame, a []value) value {
 			s := a[0].(Scalar)
 			if s.sym == nil {
@@ -431,4 +434,15 @@ func (m *Machine) goArgs(v value) ([]interface{}, bool) {
 		}
 	}
 	return out, true
+}
+
+// floatFn: a float64 -> float64 library function on concrete values; symbolic floats are unsupported.
+func floatFn(f func(float64) float64) intrinsic {
+	return func(m *Machine, c *frame, a []value) value {
+		s, ok := a[0].(Scalar)
+		if !ok || s.sym != nil {
+			return Poison{"float function on symbolic value"}
+		}
+		return conc(64, math.Float64bits(f(math.Float64frombits(s.c))))
+	}
 }
